@@ -380,7 +380,13 @@ func (s *scheduler) heldLocks() []string {
 }
 
 func callerDesc(fr *frame) string {
-	if fr == nil || fr.caller == nil {
+	if fr == nil {
+		return ""
+	}
+	if fr.caller == nil || fr.caller.fn == nil {
+		if fr.fn != nil {
+			return fr.fn.String()
+		}
 		return ""
 	}
 	c := fr.caller
